@@ -381,7 +381,7 @@ def island (ntree : Nat) (dofnum : Array Int) (dofTree : List Nat) (rows : List 
               match lookupAll a.island efcTree.toList with
               | none => none
               | some efcIsland =>
-                match buildMaps false efcIsland a.nisland (some 0) with
+                match buildMaps false efcIsland a.nisland none with
                 | none => none
                 | some efcs =>
                   some { nisland := a.nisland, nidof := a.nidof.toNat, tree_island := a.island,
